@@ -5,19 +5,24 @@ import FeatherModel.Lemmas.TinyDup
 # C03 — Tiny v2 files round-trip and are written canonically
 
 Model: `FeatherModel/Model/Tiny.lean` (`Tiny.write`, `Tiny.write?`, `Tiny.read n` for `quill::tiny_v2::{write_vec, read::<N>}`,
-`quill/src/lines.rs`, `add_child`), the code after the fixes a79b1fd (injective comment escaping) and 4f3eba6 (`write`
-refuses cells a tiny file cannot hold). Mapping sets are association lists in `IndexMap` order; `n` (the const generic
+`quill/src/lines.rs`, `add_child`), the code after the fixes a79b1fd (injective comment escaping), 4f3eba6 (`write`
+refuses cells a tiny file cannot hold) and the header section fix (`read` consumes the property lines of the header, so
+the comment of the mapping set itself round-trips). Mapping sets are association lists in `IndexMap` order; `n` (the const generic
 `N`) is a value, so every theorem below is for **every** number of namespaces (`2 ≤ n` is part of the domain), not only 2..4.
 
 * round trip: `read_write`, `read_write_content`, `read_write_canonical`, `write_succeeds` on the decidable domain
-  `Tiny.writable n m` (comments are arbitrary); `unescape_escape`, `escape_injective`;
+  `Tiny.writable n m` (all comments, also the one of the mapping set itself, are arbitrary); `unescape_escape`,
+  `escape_injective`;
 * what `write` refuses: `write_rejects_iff`, `write_rejects_where`, `write_accepts` — a refused set is an `Err`, never a
   corrupted file or a panic (regressions `name_tab_cr_lf_rejected`, `non_utf8_rejected`);
 * order independence: `write_perm`, `write_perm_dec`, `write_perm_classes`, `write_canon`, `sort_key_separates_*`;
 * fixed point: `write_fixed_point`;
 * reading never merges, loses or re-parents: `step_appends`, `read_counts`, `read_wf`, `read_closed_classes_final`,
   `read_dup_class / _field / _method / _param`, `read_dup`, `read_error_propagates`;
-* still open: `toplevel_doc_witness` (the comment of the mapping set itself is written where `read` rejects it).
+* the header's own section: `read_toplevel_doc` (the comment of the set comes from the comment line of the header section
+  and from nowhere else), `header_unknown_property_ignored`, `header_two_comments_error`, `header_deeper_line_error`,
+  `read_header_bad`, `indented_after_ignored_toplevel_error`, `comment_after_class_is_class_comment`;
+* regression of the repaired defect: `toplevel_doc_roundtrip` (was `toplevel_doc_witness`).
 -/
 
 namespace Thm.C03
@@ -90,8 +95,17 @@ def exDocs : Mappings :=
 
 example : writable 2 exDocs = true := by decide
 example : read 2 (write exDocs) = some (canon exDocs) := by decide
-/-- the domain is inhabited for every `n ≥ 2` -/
-example (n : Nat) (h : 2 ≤ n) : writable n { ns := List.replicate n [97], doc := none, classes := [] } = true := by
+
+/-- a comment on the mapping set itself: two lines, a TAB, a backslash, backslash-`n`, a CR at the end -/
+def exTop : Mappings := { exM with doc := some [116, 111, 112, 10, 9, 92, 32, 92, 110, 13] }
+/-- the empty comment on the mapping set (written as `\tc\t`) -/
+def exTopEmpty : Mappings := { exM3 with doc := some [] }
+
+example : writable 2 exTop = true ∧ writable 3 exTopEmpty = true := by decide
+example : read 2 (write exTop) = some (canon exTop) ∧ (canon exTop).doc = exTop.doc := by decide
+example : read 3 (write exTopEmpty) = some (canon exTopEmpty) := by decide
+/-- the domain is inhabited for every `n ≥ 2`, with and without a comment on the set -/
+example (n : Nat) (h : 2 ≤ n) (d : Option JStr) : writable n { ns := List.replicate n [97], doc := d, classes := [] } = true := by
   simp [writable, wf, keysNodup, h, cellOk, isSurrogate]
 
 /-! ## 1. round trip -/
@@ -109,8 +123,9 @@ theorem escape_injective {a b : JStr} (h : escape a = escape b) : a = b := Tiny.
 /-- an escaped comment is one cell of one line: no TAB, LF, CR -/
 theorem escape_one_cell (d : JStr) : 9 ∉ escape d ∧ 10 ∉ escape d ∧ 13 ∉ escape d := escape_clean d
 
-/-- **`read (write m) = ok (canon m)`**: everything comes back — namespaces, every class / field / method / parameter with
-its names per namespace, descriptor, index and comment (any comment) — each level in the order `write` emits it. For every `n`. -/
+/-- **`read (write m) = ok (canon m)`**: everything comes back — namespaces, the comment of the mapping set itself, every
+class / field / method / parameter with its names per namespace, descriptor, index and comment (any comment) — each level
+in the order `write` emits it. For every `n`. -/
 theorem read_write {n : Nat} {m : Mappings} (h : writable n m = true) : read n (write m) = some (canon m) :=
   read_write_writable h
 
@@ -230,16 +245,15 @@ theorem write_accepts {m : Mappings} (h : writeOk m = true) : write? m = some (w
 (no cell or comment can break the line structure) -/
 theorem written_lines_intact {n : Nat} {m : Mappings} (h : writable n m = true) :
     lines (write m) = writeLines m := by
-  simp only [writable, Bool.and_eq_true, decide_eq_true_eq, beq_iff_eq, List.all_eq_true, Bool.not_eq_true',
-    Option.isNone_iff_eq_none] at h
-  obtain ⟨⟨⟨⟨⟨_, _⟩, hns⟩, hdoc⟩, _⟩, hcls⟩ := h
+  simp only [writable, Bool.and_eq_true, decide_eq_true_eq, beq_iff_eq, List.all_eq_true, Bool.not_eq_true'] at h
+  obtain ⟨⟨⟨⟨_, _⟩, hns⟩, _⟩, hcls⟩ := h
   have hhead := header_parsed (ns := m.ns) (fun s hs => (hns s hs).2)
   have hparsed : Parsed (writeLines m)
-      ({ indent := 0, first := TINY, fields := [50] :: [48] :: m.ns } :: (sortBy classLe m.classes.values).flatMap classT) := by
+      ({ indent := 0, first := TINY, fields := [50] :: [48] :: m.ns } ::
+        (docT 1 m.doc ++ (sortBy classLe m.classes.values).flatMap classT)) := by
     unfold writeLines
-    rw [hdoc]
     apply Parsed.cons hhead.1 hhead.2
-    simp only [docLines, List.nil_append]
+    apply (docLines_parsed 1 m.doc).append
     apply Parsed.flatMap
     intro c hc
     have := mem_sortBy.mp hc
@@ -261,12 +275,16 @@ theorem step_appends {n : Nat} {s s' : St} {l : TLine} (h : step n s l = some s'
   ⟨(step_treeStep h).1, (step_treeStep h).2.1⟩
 
 /-- **no merge, no loss**: a successful `read` yields exactly one class / field / method / parameter / comment per line
-that `lineKinds` (a function of the text alone) classifies as such -/
+that `lineKinds` (a function of the text alone) classifies as such, and the mapping set has a comment exactly when the
+header section has a comment line. The body (`bodyPart`) is what stands from the first line at indentation 0 on, the
+header section (`headerPart`) what stands before it. -/
 theorem read_counts {n : Nat} {t : List Nat} {m : Mappings} (h : read n t = some m) (κ : LineKind) (hκ : κ ≠ .skip) :
-    countOf κ m.classes = (lineKinds .field (textLines t).tail).count κ := by
-  obtain ⟨hd, ls, s, ht, _, _, _, _, hrun, hc⟩ := read_some h
-  have := run_counts (n := n) κ hκ ls _ s hrun
+    countOf κ m.classes = (lineKinds .field (bodyPart (textLines t).tail)).count κ ∧
+    docN m.doc = (headerDocLines (textLines t).tail).length := by
+  obtain ⟨hd, ls, s, ht, _, _, hsec, _, hrun, hc⟩ := read_some h
+  have := run_counts (n := n) κ hκ (bodyPart ls) _ s hrun
   rw [ht, hc, this]
+  refine ⟨?_, (headerSec_none_doc hsec).2⟩
   cases κ <;> simp [countOf] at hκ ⊢
 
 /-- **no duplicate or misfiled entry**: in the result every key is unique and is the key derived from its entry (first
@@ -274,7 +292,7 @@ name, descriptor / index) -/
 theorem read_wf {n : Nat} {t : List Nat} {m : Mappings} (h : read n t = some m) : wf m = true := by
   obtain ⟨hd, ls, s, _, _, _, _, _, hrun, hc⟩ := read_some h
   rw [wf_eq_wfCs, hc]
-  exact run_wf ls _ s hrun rfl
+  exact run_wf (bodyPart ls) _ s hrun rfl
 
 /-- **no re-parenting**: once a class entry is followed by another one it is final — whatever the rest of the text is,
 it stays, unchanged, at its place -/
@@ -283,10 +301,11 @@ theorem read_closed_classes_final {n : Nat} {s s' : St} {ls : List TLine} (h : r
     ∃ rest, rest ≠ [] ∧ s'.classes = closed ++ rest :=
   run_frozen ls s s' h hs
 
-/-- **duplicate keys are errors** (positions `i < j` in the body, `m` the method line for parameters): two class lines with
-the same first name; two field (method) lines of one class with the same descriptor and first name; two parameter lines of
-one method with the same index -/
-theorem read_dup {n : Nat} {t : List Nat} {m i j : Nat} (h : dupAt (textLines t).tail m i j = true) : read n t = none := by
+/-- **duplicate keys are errors** (positions `i < j` in the body, i.e. counted from the first line at indentation 0; `m`
+the method line for parameters): two class lines with the same first name; two field (method) lines of one class with the
+same descriptor and first name; two parameter lines of one method with the same index -/
+theorem read_dup {n : Nat} {t : List Nat} {m i j : Nat} (h : dupAt (bodyPart (textLines t).tail) m i j = true) :
+    read n t = none := by
   cases ht : textLines t with
   | nil => simp [Tiny.read, ht]
   | cons hd ls =>
@@ -296,27 +315,35 @@ theorem read_dup {n : Nat} {t : List Nat} {m i j : Nat} (h : dupAt (textLines t)
 theorem read_dup_class {n : Nat} {t : List Nat} {hd : TLine} {pre mid post : List TLine} {l1 l2 : TLine}
     (ht : textLines t = hd :: (pre ++ l1 :: (mid ++ l2 :: post)))
     (h1 : l1.indent = 0 ∧ l1.first = C_) (h2 : l2.indent = 0 ∧ l2.first = C_)
-    (hk : l1.fields.head? = l2.fields.head?) : read n t = none :=
-  read_none_of_run_none ht (fun _ => run_dup_class h1 h2 hk)
+    (hk : l1.fields.head? = l2.fields.head?) : read n t = none := by
+  obtain ⟨pre', hp⟩ := bodyPart_split pre l1 (mid ++ l2 :: post) h1.1
+  exact read_none_of_run_none ht (fun _ => by rw [hp]; exact run_dup_class h1 h2 hk)
 
+/-- `hbody`: the two lines stand in the body, not in the header section (where `f` lines are ignored property lines) -/
 theorem read_dup_field {n : Nat} {t : List Nat} {hd : TLine} {pre mid post : List TLine} {l1 l2 : TLine}
-    (ht : textLines t = hd :: (pre ++ l1 :: (mid ++ l2 :: post)))
+    (ht : textLines t = hd :: (pre ++ l1 :: (mid ++ l2 :: post))) (hbody : ∃ l ∈ pre, l.indent = 0)
     (h1 : l1.indent = 1 ∧ l1.first = F_) (h2 : l2.indent = 1 ∧ l2.first = F_) (hmid : ∀ l ∈ mid, 1 ≤ l.indent)
     (hk : l1.fields.take 2 = l2.fields.take 2) : read n t = none :=
-  read_none_of_run_none ht (fun _ => run_dup_field h1 h2 hmid hk)
+  read_none_of_tail_none ht hbody (fun _ _ => run_dup_field h1 h2 hmid hk)
 
 theorem read_dup_method {n : Nat} {t : List Nat} {hd : TLine} {pre mid post : List TLine} {l1 l2 : TLine}
-    (ht : textLines t = hd :: (pre ++ l1 :: (mid ++ l2 :: post)))
+    (ht : textLines t = hd :: (pre ++ l1 :: (mid ++ l2 :: post))) (hbody : ∃ l ∈ pre, l.indent = 0)
     (h1 : l1.indent = 1 ∧ l1.first = M_) (h2 : l2.indent = 1 ∧ l2.first = M_) (hmid : ∀ l ∈ mid, 1 ≤ l.indent)
     (hk : l1.fields.take 2 = l2.fields.take 2) : read n t = none :=
-  read_none_of_run_none ht (fun _ => run_dup_method h1 h2 hmid hk)
+  read_none_of_tail_none ht hbody (fun _ _ => run_dup_method h1 h2 hmid hk)
 
 theorem read_dup_param {n : Nat} {t : List Nat} {hd : TLine} {pre mid0 mid post : List TLine} {lm l1 l2 : TLine}
-    (ht : textLines t = hd :: (pre ++ lm :: (mid0 ++ l1 :: (mid ++ l2 :: post))))
+    (ht : textLines t = hd :: (pre ++ lm :: (mid0 ++ l1 :: (mid ++ l2 :: post)))) (hbody : ∃ l ∈ pre, l.indent = 0)
     (hm : lm.indent = 1 ∧ lm.first = M_) (hmid0 : ∀ l ∈ mid0, 2 ≤ l.indent)
     (h1 : l1.indent = 2 ∧ l1.first = P_) (h2 : l2.indent = 2 ∧ l2.first = P_) (hmid : ∀ l ∈ mid, 2 ≤ l.indent)
     (hk : (l1.fields.head?).bind parseUsize = (l2.fields.head?).bind parseUsize) : read n t = none :=
-  read_none_of_run_none ht (fun _ => run_dup_param hm hmid0 h1 h2 hmid hk)
+  read_none_of_tail_none ht hbody (fun _ _ => run_dup_param hm hmid0 h1 h2 hmid hk)
+
+/-- two `f` lines with one key directly after the header are property lines of the header section, ignored like every
+unknown line: `hbody` cannot be dropped. `tiny 2 0 a b / ⇥f I x y / ⇥f I x y` -/
+theorem read_dup_field_header_witness :
+    read 2 [116, 105, 110, 121, 9, 50, 9, 48, 9, 97, 9, 98, 10, 9, 102, 9, 73, 9, 120, 9, 121, 10, 9, 102, 9, 73, 9, 120, 9, 121, 10]
+      = some { ns := [[97], [98]], doc := none, classes := [] } := by decide
 
 /-- a line the reader rejects makes the whole `read` fail, whatever follows -/
 theorem read_error_propagates {n : Nat} {s0 s : St} {pre post : List TLine} {l : TLine}
@@ -330,7 +357,82 @@ example : read 2 [116, 105, 110, 121, 9, 50, 9, 48, 9, 97, 9, 98, 10, 99, 9, 65,
 example : ∃ m, read 2 (write exM) = some m ∧ countOf .par m.classes = 2 ∧ countOf .doc m.classes = 3 := by
   refine ⟨canon exM, by decide, by decide, by decide⟩
 
-/-! ## 5. regressions of the fixed defects, and what is still open (all replayed against the real code) -/
+/-! ## 4b. the header's own section: the property lines (indentation 1) directly after the header line -/
+
+/-- **where the comment of the mapping set comes from**: it is the (unescaped) cell of the comment line of the header
+section — the lines before the first line at indentation 0 — and nothing that stands later can set or change it; there
+is a comment exactly when there is such a line (`read_counts`) -/
+theorem read_toplevel_doc {n : Nat} {t : List Nat} {m : Mappings} (h : read n t = some m) :
+    m.doc = headerDoc (textLines t).tail ∧ ∀ l ∈ headerPart (textLines t).tail, l.indent = 1 := by
+  obtain ⟨hd, ls, s, ht, _, _, hsec, _, _, _⟩ := read_some h
+  rw [ht, List.tail_cons]
+  exact ⟨(headerSec_none_doc hsec).1, headerSec_indents ls none _ _ hsec⟩
+
+/-- **unknown header properties are ignored**: a property line other than `c` in the header section (e.g.
+`⇥escaped-names`) can be deleted without changing the outcome of `read` — result or error -/
+theorem header_unknown_property_ignored {n : Nat} {t t' : List Nat} {hd : TLine} {pre post : List TLine} {l : TLine}
+    (ht : textLines t = hd :: (pre ++ l :: post)) (ht' : textLines t' = hd :: (pre ++ post))
+    (hpre : ∀ x ∈ pre, x.indent ≠ 0) (hl : l.indent = 1) (hf : l.first ≠ C_) : read n t = read n t' :=
+  read_congr ht ht' (headerSec_ignores pre none l post hpre hl hf)
+
+/-- the same through the decidable position test the oracle uses -/
+theorem header_unknown_property_ignored_at {n : Nat} {t t' : List Nat} {k : Nat}
+    (hh : (textLines t).head? = (textLines t').head?) (h : ignoredAt (textLines t).tail (textLines t').tail k = true) :
+    read n t = read n t' :=
+  read_eq_of_ignoredAt hh h
+
+/-- **two comments in the header section are an error** (`add_comment`: only one comment is allowed) -/
+theorem header_two_comments_error {n : Nat} {t : List Nat} {hd : TLine} {pre mid post : List TLine} {l1 l2 : TLine}
+    (ht : textLines t = hd :: (pre ++ l1 :: (mid ++ l2 :: post)))
+    (hpre : ∀ x ∈ pre, x.indent ≠ 0) (hmid : ∀ x ∈ mid, x.indent ≠ 0)
+    (h1 : l1.indent = 1 ∧ l1.first = C_) (h2 : l2.indent = 1 ∧ l2.first = C_) : read n t = none :=
+  read_none_of_headerSec_none ht (headerSec_two_comments pre none l1 mid l2 post hpre hmid h1.1 h1.2 h2.1 h2.2)
+
+/-- **a line deeper than a property line is an error** in the header section (e.g. a comment at indentation 2) -/
+theorem header_deeper_line_error {n : Nat} {t : List Nat} {hd : TLine} {pre post : List TLine} {l : TLine}
+    (ht : textLines t = hd :: (pre ++ l :: post)) (hpre : ∀ x ∈ pre, x.indent ≠ 0) (hl : 2 ≤ l.indent) : read n t = none :=
+  read_none_of_headerSec_none ht (headerSec_deep_none pre none l post hpre hl)
+
+/-- both through the decidable test the oracle uses -/
+theorem read_header_bad {n : Nat} {t : List Nat} (h : headerBad (textLines t).tail = true) : read n t = none :=
+  read_none_of_headerBad h
+
+/-- **the header section is only accepted directly after the header**: later, an indented line directly after a line at
+indentation 0 that is no class line (an ignored line opens nothing) is an error, as it always was -/
+theorem indented_after_ignored_toplevel_error {n : Nat} {t : List Nat} {hd : TLine} {pre post : List TLine} {l0 l : TLine}
+    (ht : textLines t = hd :: (pre ++ l0 :: l :: post)) (h0 : l0.indent = 0 ∧ l0.first ≠ C_) (hl : 1 ≤ l.indent) :
+    read n t = none := by
+  obtain ⟨pre', hp⟩ := bodyPart_split pre l0 (l :: post) h0.1
+  exact read_none_of_run_none ht (fun _ => by rw [hp]; exact run_orphan_indent h0.1 h0.2 hl)
+
+/-- through the decidable position test the oracle uses -/
+theorem indented_after_ignored_toplevel_error_at {n : Nat} {t : List Nat} {k : Nat}
+    (h : orphanAt (textLines t).tail k = true) : read n t = none :=
+  read_none_of_orphanAt h
+
+/-- `tiny 2 0 a b / ⇥x y / ⇥c top / ⇥escaped-names / c A B` against the same text without the two unknown property lines -/
+example : read 2 (jstr "tiny\t2\t0\ta\tb\n\tx\ty\n\tc\ttop\n\tescaped-names\nc\tA\tB\n")
+    = read 2 (jstr "tiny\t2\t0\ta\tb\n\tc\ttop\nc\tA\tB\n") ∧
+    read 2 (jstr "tiny\t2\t0\ta\tb\n\tc\ttop\nc\tA\tB\n") =
+      some { ns := [[97], [98]], doc := some (jstr "top"),
+             classes := [([65], { names := [some [65], some [66]], doc := none, fields := [], methods := [] })] } := by
+  decide
+
+/-- two header comments; a header comment at indentation 2; a header comment after an ignored line at indentation 0 -/
+example : read 2 (jstr "tiny\t2\t0\ta\tb\n\tc\tone\n\tc\ttwo\n") = none ∧
+    read 2 (jstr "tiny\t2\t0\ta\tb\n\t\tc\tdeep\n") = none ∧
+    read 2 (jstr "tiny\t2\t0\ta\tb\nx\n\tc\tlate\n") = none := by decide
+
+/-- **after the first class there is no header section**: a `c` line at indentation 1 there is the comment of that class
+(a second one the usual error), the comment of the set stays absent; other property lines there are the class's unknown
+sub-lines (ignored, as before) -/
+theorem comment_after_class_is_class_comment :
+    read 2 (jstr "tiny\t2\t0\ta\tb\nc\tA\tB\n\tc\tx\n\tescaped-names\n") =
+      some { ns := [[97], [98]], doc := none,
+             classes := [([65], { names := [some [65], some [66]], doc := some [120], fields := [], methods := [] })] } ∧
+    read 2 (jstr "tiny\t2\t0\ta\tb\n\tc\ttop\nc\tA\tB\n\tc\tx\n\tc\ty\n") = none := by decide
+
+/-! ## 5. regressions of the fixed defects (all replayed against the real code) -/
 
 /-- (was `comment_backslash_n_witness`) a comment `x\ny` (backslash, `n`) now comes back as it was -/
 theorem comment_backslash_n_regression : read 2 (write exBsN) = some (canon exBsN) ∧ canon exBsN = exBsN := by decide
@@ -347,10 +449,15 @@ theorem doc_cr_tab_regression :
     read 2 (write (exDoc [100, 13])) = some (exDoc [100, 13]) ∧ read 2 (write (exDoc [100, 9, 101])) = some (exDoc [100, 9, 101]) := by
   decide
 
-/-- **still open**: the comment of the mapping set itself is written at indentation 1 — where `read` expects indentation 0 -/
-theorem toplevel_doc_witness :
+/-- (was `toplevel_doc_witness`) the comment of the mapping set itself is written as a property line of the header
+section; `read` used to reject that line ("expected an indentation of 0"), now it comes back — also the empty comment and
+one with two lines, a TAB, backslashes and a CR -/
+theorem toplevel_doc_roundtrip :
     write? { exM3 with doc := some [116] } = some (write { exM3 with doc := some [116] }) ∧
-    read 3 (write { exM3 with doc := some [116] }) = none := by decide
+    read 3 (write { exM3 with doc := some [116] }) = some (canon { exM3 with doc := some [116] }) ∧
+    read 3 (write exTopEmpty) = some (canon exTopEmpty) ∧ (canon exTopEmpty).doc = some [] ∧
+    read 2 (write exTop) = some (canon exTop) ∧ (canon exTop).doc = some [116, 111, 112, 10, 9, 92, 32, 92, 110, 13] := by
+  decide
 
 def exName (name : JStr) : Mappings :=
   { ns := [[97], [98]], doc := none,
